@@ -26,6 +26,11 @@ claim("C14",
  "DESIGN.md 6/C14",
  "Not covered: archival Q4-only pruning (store level, see C07/C05), pruneOnHeaderDelete interleaved with a cycle, restart persistence through the real datastore.")
 
+claim("C20",
+ "Bounded model checking of the real subscription goroutine under the engine's scheduler: for a feed of 2-3 headers (arbitrary base height), retrieval failing 0..2 times per header, any consumer pace and every schedule within the delay bound, the responses are exactly the fed heights, once each, in order, with the blobs of that height; the stream stays open while nothing ends it; after user cancel, service stop or feed close it is closed promptly (at most 2 further retrieval attempts, also when retrieval fails for ever) after a gap-free prefix; a subscriber a full 16-slot buffer behind is cut off at exactly 16.",
+ "symbolic execution of go/ssa with goroutines; schedules, failure counts and end events as explored decisions (delay-bounded scheduler); mostly control nondeterminism, the solver decides the symbolic base height",
+ "DESIGN.md 6/C20")
+
 claim("C13",
  "Bounded model checking of the real coordinator/worker code at quiescence: every started job has reported, catch-up-done holds exactly when nothing is queued, in flight or failed (including right after resume), every height is sampled or recorded failed, statistics agree with the ghost record of sampled heights, worker counts respect limit / 2x limit, and the back-off attempt count increases by one with a delay that saturates at the last interval for every attempt count 0..8 and every instant.",
  "symbolic execution of go/ssa with schedules as decisions + SMT; unbounded liveness replaced by bounded quiescence statements",
